@@ -173,6 +173,38 @@ Proof.
   - cbn [fst snd]. exact I.
 Qed.
 
+(* refusal only for max = 0 or when every id of the range is live *)
+Lemma reserve_refused_exhausted ops max :
+  let d := dfinal dinit ops in
+  snd (fst (dstep d (OReserve max))) = ORes None ->
+  max = 0%N \/ forall id, (1 <= id <= reserve_max max)%N -> In id (map fst (entries (d_tbl d))).
+Proof.
+  intros d. unfold dstep, dstep0.
+  destruct (command_reserve_spec (d_tbl d) max (d_next d)) as (t' & rr & E & Hf & H).
+  rewrite E. cbn [bind]. destruct rr as [pos id| |]; [| |congruence].
+  - destruct H as (t2 & Ea & _).
+    unfold reserve_arm in Ea. rewrite E in Ea. cbn [bind] in Ea.
+    destruct t' as [tb|]; [|discriminate].
+    destruct (put (slots tb) pos _) as [sl| |]; cbn [bind fst snd]; discriminate.
+  - intros _. destruct H as (_ & _ & [->|Hx]); [left; reflexivity|right].
+    intros id Hid. pose proof (ids_exhausted_elim _ _ Hx id Hid) as Hs.
+    destruct (m_lookup (entries (d_tbl d)) id) as [h|] eqn:El; [|discriminate].
+    apply m_lookup_some_in in El. apply (in_map fst) in El. exact El.
+Qed.
+
+Lemma reserve_succeeds ops max id :
+  let d := dfinal dinit ops in
+  max <> 0%N -> (1 <= id <= reserve_max max)%N -> ~ In id (map fst (entries (d_tbl d))) ->
+  exists pos id', snd (fst (dstep d (OReserve max))) = ORes (Some (pos, id')).
+Proof.
+  intros d Hm Hid Hfree.
+  pose proof (reserved_fresh ops max) as HF. pose proof (reserve_refused_exhausted ops max) as HR.
+  fold d in HF, HR. cbv zeta in HF, HR.
+  destruct (snd (fst (dstep d (OReserve max)))) as [| | |[[pos id']|]| | | | |]; try contradiction.
+  - eauto.
+  - exfalso. destruct (HR eq_refl) as [E|HA]; [contradiction|]. exact (Hfree (HA id Hid)).
+Qed.
+
 Lemma no_fault ops :
   Forall (fun x => fst (fst x) <> OFault /\ fst (fst x) <> OFuel) (drun dinit ops).
 Proof. exact (proj2 (proj2 (run_refines ops dinit sinit R_init))). Qed.
